@@ -397,7 +397,8 @@ def build_evidence(prop, props, tier, seed, fresults, lresults, obligations, dis
     reg = registry.PROPERTIES[prop]
     by_solver = {}
     for o in discharged:
-        by_solver[o.get("solver", "z3")] = by_solver.get(o.get("solver", "z3"), 0) + 1
+        lab = re.sub(r"\(context slice:[^)]*\)", "(context slice)", o.get("solver") or "z3")
+        by_solver[lab] = by_solver.get(lab, 0) + 1
     own = [o for o in obligations if o["func"] == "lemma" or prop in contracts.get(o["func"], {}).get("props", [])]
     samples = []
     for o in (refuted + unknown + discharged)[:0] + discharged[:3] + refuted[:3]:
